@@ -1120,6 +1120,7 @@ func (i *impl) exec(h *lp.H, op string) string {
 				}
 			}
 		}()
+		statusAtClose, discAtClose := i.status(), atomic.LoadInt32(&i.disc)
 		ctx, cancel := context.WithTimeout(context.Background(), time.Second)
 		t0 := time.Now()
 		var err error
@@ -1156,6 +1157,11 @@ func (i *impl) exec(h *lp.H, op string) string {
 		}
 		if !waitUntil(wd, func() bool { return i.status() == "x" }) {
 			h.Violate("Close returned and the connection is not closed")
+		}
+		if statusAtClose == "c" {
+			// the end of a live connection's run loop is reported as a disconnection; the notification is dispatched
+			// asynchronously: give it a moment before the counters are read (its absence shows in the comparison)
+			waitUntil(time.Second, func() bool { return atomic.LoadInt32(&i.disc) > discAtClose })
 		}
 		for _, r := range i.reqs {
 			if r.res == "" {
